@@ -37,7 +37,8 @@ CONSTANTS DefaultCopied,      \* schema defaults are deep-copied before they are
           TypeInfosLocked,    \* openapi3gen's type-info cache is accessed under its RWMutex
           PatternCacheAtomic, \* the compiled-pattern cache is a sync.Map
           UriCacheLocked,     \* the URI cache of DefaultReadFromURI is accessed under uriMu
-          UniqueCheckerSet,   \* CONFIGURATION, not design: the uniqueness checker variable is non-nil when validations start
+          UniqueCheckerReadOnly, \* array validation only reads the uniqueness checker: a nil registration is resolved to the default
+                              \* where it is registered (fix 6e03b47; FALSE = the code before it: found nil, re-initialised inside the visit)
           WithWriters,        \* the documented writers (doc.Validate, router construction, Register* / Define*) join the catalogue
           MaxOps              \* number of concurrent operations explored
 
@@ -46,7 +47,7 @@ Acc(k, x) == <<k, x>>
 (* ------------------------------------------------------------------ elements *)
 Locations ==
    [ patternCache     |-> "openapi3.compiledPatterns: sync.Map, Load / CompareAndSwap by every string visit with a pattern",
-     uniqueChecker    |-> "openapi3.sliceUniqueItemsChecker: package variable, read by every array visit, re-initialised there when nil",
+     uniqueChecker    |-> "openapi3.sliceUniqueItemsChecker: package variable, read by every array visit; written by RegisterArrayUniqueItemsChecker only",
      formats_string   |-> "openapi3.SchemaStringFormats: plain map, read by string visits with a format; written by DefineStringFormat*",
      formats_number   |-> "openapi3.SchemaNumberFormats: plain map, read by number visits with a format",
      formats_integer  |-> "openapi3.SchemaIntegerFormats: plain map, read by integer visits with a format",
@@ -120,7 +121,7 @@ TypeInfos(write) ==
 Pattern(first) ==
    IF PatternCacheAtomic THEN <<Acc("A", "patternCache")>> \o (IF first THEN <<Acc("A", "patternCache")>> ELSE <<>>)
    ELSE <<Acc("R", "patternCache")>> \o (IF first THEN <<Acc("W", "patternCache")>> ELSE <<>>)
-Unique == <<Acc("R", "uniqueChecker")>> \o (IF UniqueCheckerSet THEN <<>> ELSE <<Acc("W", "uniqueChecker")>>)
+Unique == <<Acc("R", "uniqueChecker")>> \o (IF UniqueCheckerReadOnly THEN <<>> ELSE <<Acc("W", "uniqueChecker")>>)
 Decoders(miss) == <<Acc("R", "bodyDecoders")>> \o (IF miss /\ ~RegistryInitOnly THEN <<Acc("W", "bodyDecoders")>> ELSE <<>>)
 
 EntryAcc(e) ==
